@@ -236,7 +236,12 @@ def run(prop, tier):
                     scheds.append(json.dumps({"auth": 0, "ackAt": 1, "infoAt": 1, "lat": lat, "policy": "prompt",
                                               "preDelay": {"frame": frame, "secs": secs}}, sort_keys=True))
         tinp, toutp = os.path.join(wd, "timed_in.ndjson"), os.path.join(wd, "timed_obs.ndjson")
-        vlib.write_ndjson(tinp, [{"sched": json.loads(x)} for x in scheds])
+        trecs = [{"sched": json.loads(x)} for x in scheds]
+        if prop == "C03":
+            # the Transfer behind a half-written Keep Alive: the transport stalls in mid-frame while routing steps complete (Frames.tla situations)
+            import frames_check
+            trecs += [{k: v for k, v in r.items() if k != "tag"} for r in frames_check.write_stall_schedules(tier == "thorough")]
+        vlib.write_ndjson(tinp, trecs)
         vlib.run_bin(hx, ["conn-timed", "--in", tinp, "--out", toutp, "--seed", str(seed), "--threads", "12"], timeout=1800)
         tobs = vlib.read_ndjson(toutp)
         tt = vlib.run_tlc("Trace_ConnProps", "Trace_ConnProps.cfg", wd, workers=1, timeout=1800, markers=("FAIL", "NOTCONSUMED"),
@@ -279,6 +284,31 @@ def run(prop, tier):
         states += b.distinct + bt.distinct
         transitions += b.generated + bt.generated
         extra_notes.append("MC_Builtins + Trace_Builtins: %d localization/status cases of the built-in adapters judged" % len(bobs))
+    if prop == "C04":
+        # "the CONFIGURED maximum frame size": frames around the operator's value against the whole application (passage::start from a
+        # configuration value), judged by Trace_Listener
+        import listener_check
+        awd = os.path.join(wd, "app")
+        os.makedirs(awd, exist_ok=True)
+        ascs = [x for x in listener_check.scenarios("C14", "quick", seed, awd)[0] if x["family"] == "C14len"]
+        ainp, aoutp = os.path.join(awd, "in.ndjson"), os.path.join(awd, "obs.ndjson")
+        vlib.write_ndjson(ainp, ascs)
+        hxa = vlib.cargo_build("hx-app")
+        vlib.run_bin(hxa, ["serve", "--in", ainp, "--out", aoutp], timeout=600)
+        aobs = vlib.read_ndjson(aoutp)
+        if len(aobs) != len(ascs) or any("harnessError" in o for o in aobs):
+            raise vlib.ToolError("hx-app serve did not produce a record for every scenario: %s" % json.dumps(aobs)[:600])
+        at = vlib.run_tlc("Trace_Listener", "Trace_Listener.cfg", awd, workers=1, timeout=600, markers=("FAIL", "NOTCONSUMED"),
+                          env_extra={"TRACE": aoutp, "PROP": "C04"}, java_opts=["-Xss1g", "-Dtlc2.tool.queue.IStateQueue=StateDeque"])
+        if not at.ok or at.marked["NOTCONSUMED"] or at.distinct != len(aobs) + 1:
+            raise vlib.ToolError("Trace_Listener did not consume all %d application records:\n%s" % (len(aobs), at.output[-2000:]))
+        for f in at.marked["FAIL"]:
+            o = aobs[f["line"] - 1]
+            rep.violation("C04 %s [application: configured maximum %s, frame of %s bytes: %s]" % ("+".join(sorted(f["clauses"])), o["maxLen"], o["sentLen"], o["outcome"]),
+                          {"failing_clauses": sorted(f["clauses"]), "scenario": ascs[f["line"] - 1], "observed": o, "seed": seed})
+        states += at.distinct
+        transitions += at.generated
+        extra_notes.append("application level: %d frames around the configured maximum through passage::start, judged by Trace_Listener" % len(aobs))
     if prop in ("C02", "C10"):
         # behind a balancer: which address the issued cookie records / is bound to, observed through the real Listener with the
         # PROXY protocol on (arrival histories from Admission.tla, clause in Trace_Listener)
